@@ -37,6 +37,7 @@ pub const JOBS: &[&str] = &[
     "side_zip_right",
     "side_zip_left",
     "limited_forward",
+    "limited_forward3",
 ];
 
 fn get1<T: Send + 'static>(o: StreamOutput<Vec<T>>, f: impl Fn(T) -> Vec<i64> + Send + 'static) -> Getter {
@@ -320,6 +321,18 @@ pub fn build(ctx: &StreamContext, job: &str, n: i64, bm: BatchMode, fault: Optio
                 |_state| true,
             );
             let o = state.collect_vec();
+            vec![get1(o, |x| vec![x])]
+        }
+        "limited_forward3" => {
+            // the same with `Limited(3)` behind a map: on three or more hosts several consumer replicas of
+            // one host are fed by producers of different remote hosts
+            let o = ctx
+                .stream_par_iter(0..n)
+                .batch_mode(bm)
+                .map(|x| x * 2)
+                .replication(renoir::Replication::new_limited(3))
+                .map(|x| x + 1)
+                .collect_vec();
             vec![get1(o, |x| vec![x])]
         }
         "limited_forward" => {
